@@ -1058,6 +1058,11 @@ private:
         continue;
       s->closed = true;
       delEpoll(s->fd);
+      // Drop the fd tag, as closeNow() does. The Session is freed by the clear()
+      // below; a tag left behind would survive into the next start(): when the
+      // fd number is reused there, _fdTags.emplace() does not overwrite it and
+      // the new session's events are dispatched to this dangling Session*.
+      _fdTags.erase(s->fd);
       // SSL_shutdown before close(fd) — same ordering as closeNow
       if (s->ssl)
       {
